@@ -1191,7 +1191,7 @@ fn q_publish(
                 // instance that was never seen alive; the lifetime and dispatch monitors judge whether that was right.
                 sh.push(Ev::SysCreated { inst, ent: u64::MAX, kind, flavour, script });
             } else {
-                panic!("ReactCommands::on left {} unknown system-command entities (expected at most 1) for instance {inst}", unknown.len());
+                panic!("harness assumption [none]: ReactCommands::on left {} unknown system-command entities (expected at most 1) for instance {inst}", unknown.len());
             }
         }
         let note = {
@@ -1578,7 +1578,10 @@ pub fn make_world(prog: Arc<Program>, sh: Arc<Shared>) -> Harness {
         let after = all_entities(app.world_mut());
         let new: Vec<Entity> = after.into_iter().filter(|e| !before.contains(e)).collect();
         if new.len() != 1 {
-            panic!("App::add_reactor created {} entities (expected exactly 1: the reactor's own system) for app reactor {k}", new.len());
+            // no new system: this registration shares the system (and its state) of an earlier one - C13's business;
+            // anything else is something the harness cannot interpret
+            let tag = if new.is_empty() { "C13" } else { "none" };
+            panic!("harness assumption [{tag}]: App::add_reactor created {} entities (expected exactly 1: the reactor's own system) for app reactor {k}", new.len());
         }
         {
             let mut st = lk(&sh.st);
